@@ -143,6 +143,15 @@ func genShape(t *rapid.T, depth int) *sspec {
 	if gen.Chance(t, 70, "hasname") {
 		s.NamePos = gen.Int(t, 0, len(s.Fields), "namepos")
 	}
+	// a tag that is spelled exactly like another field's Go name: the tag
+	// takes precedence for that spelling
+	if len(s.Fields) >= 2 && gen.Chance(t, 8, "tagisgoname") {
+		i := gen.Uniform(t, len(s.Fields), "tagged")
+		j := gen.Uniform(t, len(s.Fields), "namesake")
+		if i != j && s.Fields[i].Sub == nil && s.Fields[j].Sub == nil {
+			s.Fields[i].Tag = s.Fields[j].GoName
+		}
+	}
 	return s
 }
 
@@ -327,6 +336,10 @@ func fill(t *rapid.T, s *sspec, v reflect.Value, w *bclWriter, btype string, fea
 		key := f.Tag
 		if key == "" {
 			key = spell(t, f.GoName)
+			// never a spelling that is somebody's tag (the tag would win)
+			for try := 0; try < 20 && hasTag(s, key); try++ {
+				key = strings.ToLower(spell(t, f.GoName))
+			}
 			if key != strings.ToLower(f.GoName) && key != f.GoName {
 				feat["noncanonical-key"]++
 			}
@@ -437,6 +450,15 @@ func fillNamedChild(t *rapid.T, s *sspec, v reflect.Value, w *bclWriter, btype, 
 	if saved >= 0 {
 		v.FieldByName("Name").SetString(name)
 	}
+}
+
+func hasTag(s *sspec, key string) bool {
+	for _, f := range s.Fields {
+		if f.Tag == key {
+			return true
+		}
+	}
+	return false
 }
 
 // eqReflect compares two values of the supported family bit for bit.
